@@ -26,6 +26,10 @@ fn st(s: cb::State) -> St {
 type Log = Arc<Mutex<Vec<(String, St, St)>>>;
 /// clock reading (ms) of every announced transition, parallel to the log of its `Rec`
 static TIMES: Mutex<Vec<u64>> = Mutex::new(Vec::new());
+/// The early-probe oracle is only meaningful where no other rule can reject a probe: a probe that
+/// another rule rejects is rolled back to Open WITHOUT a new retry deadline (documented behaviour,
+/// see C03), so the next request may probe again at once.
+static EARLY_PROBE_ORACLE: std::sync::atomic::AtomicBool = std::sync::atomic::AtomicBool::new(true);
 struct Rec(Log);
 impl cb::StateChangeListener for Rec {
     fn on_transform_to_closed(&self, p: cb::State, r: Arc<cb::Rule>) {
@@ -66,7 +70,7 @@ fn check_paths(log: &Log, from: St) -> Vec<(String, St)> {
     for b in cb::get_breakers_of_resource(&RES.to_string()) {
         let id = b.bound_rule().id.clone();
         // a probe is elected only once the retry timeout of the CURRENT Open period has elapsed
-        if times.len() == log.len() {
+        if times.len() == log.len() && EARLY_PROBE_ORACLE.load(std::sync::atomic::Ordering::SeqCst) {
             let mut opened_at: Option<u64> = None;
             for (k, (rid, _, n)) in log.iter().enumerate() {
                 if rid != &id {
@@ -110,6 +114,7 @@ fn setup(strats: &[cb::BreakerStrategy]) -> Log {
     clock::set_ms(T0_MS + 250);
     let log: Log = Arc::new(Mutex::new(vec![]));
     TIMES.lock().unwrap_or_else(|e| e.into_inner()).clear();
+    EARLY_PROBE_ORACLE.store(strats.len() == 1, std::sync::atomic::Ordering::SeqCst);
     cb::register_state_change_listeners(vec![Arc::new(Rec(log.clone()))]);
     cb::load_rules(strats.iter().enumerate().map(|(i, s)| rule(&format!("b{}", i), *s)).collect());
     log
@@ -265,6 +270,7 @@ fn half_open_race(strategy: cb::BreakerStrategy, with_request: bool, with_stale:
 fn blocked_probe_race(strategy: cb::BreakerStrategy, stale_ok: bool, second_request: bool) -> Body {
     Arc::new(move || {
         let log = setup(&[strategy]);
+        EARLY_PROBE_ORACLE.store(false, std::sync::atomic::Ordering::SeqCst);
         let stale = build().expect("closed breaker admits");
         open_all();
         // from now on the resource is full: one entry (the stale one) is in flight
@@ -293,6 +299,36 @@ fn blocked_probe_race(strategy: cb::BreakerStrategy, stale_ok: bool, second_requ
         outcome(format!("end={:?} events={} passed={}", ends[0].1, l.len(), passed));
         sentinel_core::isolation::clear_rules();
         teardown(rs.into_iter().flatten().collect());
+    })
+}
+
+/// (g) two breakers on the resource, both Open; the retry timeout of the first has elapsed, that of
+/// the second has not: no request may pass, whichever breaker is consulted first
+fn sibling_still_open(n: usize) -> Body {
+    Arc::new(move || {
+        clock::set_ms(T0_MS + 250);
+        let log: Log = Arc::new(Mutex::new(vec![]));
+        TIMES.lock().unwrap_or_else(|e| e.into_inner()).clear();
+        EARLY_PROBE_ORACLE.store(false, std::sync::atomic::Ordering::SeqCst);
+        cb::register_state_change_listeners(vec![Arc::new(Rec(log.clone()))]);
+        let short = rule("b0", cb::BreakerStrategy::ErrorCount);
+        let mut long = (*rule("b1", cb::BreakerStrategy::ErrorCount)).clone();
+        long.retry_timeout_ms = 60_000;
+        cb::load_rules(vec![short, Arc::new(long)]);
+        open_all();
+        clock::advance_ms(100);
+        let hs: Vec<_> = (0..n).map(|_| shuttle::thread::spawn(move || build().is_ok() as usize)).collect();
+        let passed: usize = hs.into_iter().map(|h| h.join().unwrap()).sum();
+        let ends = check_paths(&log, St::Closed);
+        let l = log.lock().unwrap().clone();
+        if passed != 0 {
+            panic!("ORACLE: pass-while-sibling-open: {} request(s) passed although breaker b1 is Open and its retry timeout (60 s) has not elapsed; log {:?}", passed, l);
+        }
+        if ends.iter().any(|(id, e)| id == "b1" && *e != St::Open) {
+            panic!("ORACLE: sibling-state: breaker b1 left Open before its retry timeout; log {:?}", l);
+        }
+        outcome(format!("events={} passed={}", l.len(), passed));
+        teardown(vec![]);
     })
 }
 
@@ -343,6 +379,8 @@ pub fn scenarios(thorough: bool) -> Vec<Scenario> {
             v.push(Scenario { name: format!("halfopen:{:?}:probe-fail||request||stale", s), bound: 2, cap: 0, body: half_open_race(s, true, true, false) });
         }
     }
+    // a sibling breaker that is still Open before its own retry timeout
+    v.push(Scenario { name: "two-breakers:short-timeout-elapsed,long-not:2-requests".into(), bound: b2, cap: 0, body: sibling_still_open(2) });
     // probes that fail at once: no second probe in the new Open period
     v.push(Scenario { name: "open->halfopen:ErrorCount:2-requests-failing-at-once".into(), bound: b2, cap: 0, body: failing_probes(ErrorCount, 2) });
     if thorough {
